@@ -300,6 +300,8 @@ Step(m0) ==
            [] e.k = "idx" -> [m EXCEPT !.k = Push(Push(Push(rest, [t |-> "idx"]), [t |-> "ev", e |-> e.i]), [t |-> "ev", e |-> e.a])]
            [] e.k = "call" -> [m EXCEPT !.k = EvalList(Push(rest, [t |-> "apply", f |-> e.f, fs |-> e.site, n |-> Len(e.as)]), e.as)]
            [] e.k = "member" -> Unspec(m, "member access without a call")
+           \* a number literal given as text because it does not fit the model's exact quarters (2^32, 1e300)
+           [] e.k = "rawnum" -> Unmod(m, "number outside the model")
            \* `f()(1)`, `a[0](2)`: functions are not values, so whatever the callee evaluates to cannot be called
            [] e.k = "callx" -> Unspec(m, "call of a value")
            [] e.k = "mcall" ->
